@@ -347,3 +347,61 @@ Proof.
   destruct v as [b|x|s|l]; cbn [model_to_number xp_number]; try reflexivity;
     apply string_to_number_refines.
 Qed.
+
+(** ** number literals of an expression: [number.parse::<f64>().unwrap()] on a string of the
+    production Number is the value the specification gives it (and does not panic) *)
+Lemma all_ws_no_ws (r : str) : existsb is_ws r = false -> all_ws r = true -> r = [].
+Proof.
+  destruct r as [|c r]; [reflexivity|]. cbn [existsb all_ws forallb].
+  rewrite orb_false_iff, andb_true_iff. intros [H1 _] [H2 _]. congruence.
+Qed.
+
+Lemma drop_while_no_ws (s : str) : existsb is_ws s = false -> drop_while is_ws s = s.
+Proof. destruct s as [|c t]; [reflexivity|]. cbn [existsb drop_while]. rewrite orb_false_iff. now intros [-> _]. Qed.
+
+Theorem literal_refines (s : str) x : spec_literal s = ROk x -> model_literal s = ROk x.
+Proof.
+  unfold spec_literal, model_literal.
+  destruct (fst (strip_char 45 s) || existsb is_ws s) eqn:E; [discriminate|].
+  apply orb_false_iff in E as [Em Ew].
+  rewrite xp_parse_number_core, (drop_while_no_ws s Ew). unfold core_spec.
+  assert (Hs45 : strip_char 45 s = (false, s)).
+  { destruct (strip_char_spec 45 s) as [[H _]|[H1 [H2 _]]]; [congruence|].
+    destruct (strip_char 45 s) as [b r]. cbn [fst snd] in *. now subst. }
+  rewrite Hs45.
+  destruct (span_spec is_digit s) as (Hs & Hip & _).
+  set (ip := fst (span is_digit s)) in *. set (s3 := snd (span is_digit s)) in *.
+  replace (span is_digit s) with (ip, s3) by (unfold ip, s3; now destruct (span is_digit s)).
+  assert (Hw3 : existsb is_ws s3 = false).
+  { rewrite Hs, existsb_app in Ew. now apply orb_false_iff in Ew as [_ H]. }
+  destruct (strip_char_spec 46 s3) as [[Hdot Hs3]|[Hdot [Hs3 _]]].
+  - destruct (strip_char 46 s3) as [dot s4]. cbn [fst snd] in Hdot, Hs3. subst dot.
+    destruct (span_spec is_digit s4) as (Hs4 & Hfp & _).
+    set (fp := fst (span is_digit s4)) in *. set (s5 := snd (span is_digit s4)) in *.
+    replace (span is_digit s4) with (fp, s5) by (unfold fp, s5; now destruct (span is_digit s4)).
+    assert (Hw5 : existsb is_ws s5 = false).
+    { rewrite Hs3 in Hw3. cbn [existsb] in Hw3. apply orb_false_iff in Hw3 as [_ H].
+      rewrite Hs4, existsb_app in H. now apply orb_false_iff in H as [_ H']. }
+    destruct (all_ws s5) eqn:Ea; [|discriminate]. cbn [andb].
+    pose proof (all_ws_no_ws s5 Hw5 Ea) as Hs5. rewrite Hs5, app_nil_r in Hs4.
+    destruct (nonempty ip || nonempty fp) eqn:Hne; [|discriminate].
+    intros [= <-].
+    pose proof (parse_shape false ip fp true Hip Hfp) as Hp. cbv beta iota delta [with_sign] in Hp.
+    assert (Hne' : ip ++ fp <> []) by (intros E; apply app_eq_nil in E as [E1 E2]; rewrite E1, E2 in Hne; discriminate).
+    specialize (Hp Hne' ltac:(discriminate)).
+    rewrite Hs, Hs3, Hs4.
+    match goal with |- match ?t with _ => _ end = _ => replace t with (Some (f64_of_decimal false (digits_val (ip ++ fp)) (- Z.of_nat (List.length fp))%Z)) by (symmetry; exact Hp) end.
+    reflexivity.
+  - destruct (strip_char 46 s3) as [dot s4]. cbn [fst snd] in Hdot. subst dot.
+    destruct (all_ws s3) eqn:Ea; [|discriminate]. cbn [andb].
+    pose proof (all_ws_no_ws s3 Hw3 Ea) as Hs3'. rewrite Hs3', app_nil_r in Hs.
+    destruct (nonempty ip) eqn:Hne; [|discriminate].
+    intros [= <-].
+    pose proof (parse_shape false ip [] false Hip eq_refl) as Hp. cbv beta iota delta [with_sign] in Hp.
+    rewrite !app_nil_r in Hp.
+    assert (Hne' : ip <> []) by (intros E; rewrite E in Hne; discriminate).
+    specialize (Hp Hne' ltac:(reflexivity)).
+    rewrite Hs.
+    match goal with |- match ?t with _ => _ end = _ => replace t with (Some (f64_of_decimal false (digits_val ip) (- Z.of_nat (@List.length N []))%Z)) by (symmetry; exact Hp) end.
+    reflexivity.
+Qed.
